@@ -27,7 +27,7 @@ Proof.
   - rewrite easyx_alt. rewrite hard_alt in Hh. revert g0 Hh. induction H as [|x r Hx Hr IH]; intros g0 Hh; [reflexivity|].
     cbn [hard_list] in Hh. apply orb_false_iff in Hh as [H1 H2]. cbn [forallb]. rewrite (Hx g0 H1), (IH _ H2). reflexivity.
   - cbn [hard] in Hh. apply orb_false_iff in Hh as [H1 _]. cbn [easyx]. eauto.
-  - cbn [hard] in Hh. cbn [easyx]. eauto.
+  - cbn [hard] in Hh. apply orb_false_iff in Hh as [H1 _]. cbn [easyx]. eauto.
 Qed.
 
 Definition bothV (A : list val) (h : nat) : Prop :=
